@@ -166,9 +166,9 @@ func C01(r *h.Run) {
 	// ---- 3. end to end ----
 	type e2eCfg struct {
 		Proto, Codec, Compression, Kind string
-		SendCompression               bool
-		MinBytes                      int
-		Via                           e2eTransport
+		SendCompression                 bool
+		MinBytes                        int
+		Via                             e2eTransport
 	}
 	runCfg := func(c e2eCfg, reqMsgs, resMsgs [][]byte, fam string) {
 		var copts []connect.ClientOption
